@@ -99,6 +99,9 @@ func genStorePlan(class string) func(r *prng) *plan {
 				}
 			case class == "crash" && r.chance(8):
 				p.Ops = append(p.Ops, opSpec{K: "crash", N: []int64{int64(r.intn(len(crashModes))), int64(1 + r.intn(40)), int64(r.u64() >> 1)}})
+			case class == "crash" && r.chance(4):
+				// clean restart during which one read of a table file fails (the k-th), then a put
+				p.Ops = append(p.Ops, opSpec{K: "faultyreopen", N: []int64{int64(1 + r.intn(5)), int64(r.intn(nids)), size(), int64(r.u64() >> 1)}})
 			case r.chance(4):
 				p.Ops = append(p.Ops, opSpec{K: "reopen"})
 			case r.chance(25):
@@ -153,14 +156,15 @@ type storeSim struct {
 	lastRadius        *uint256.Int
 	opIdx             int
 	// yield scheduler
-	tasks           map[uint64]*ytask
-	crashMode       string
-	persistedAtOpen uint64
-	locks           []lockProbe
-	crashSeed       uint64
-	lastCrash       string
-	yieldOn         bool
-	lastTasks       []*ytask // tasks of the last runTasks call, with their invoke / return stamps
+	tasks             map[uint64]*ytask
+	crashMode         string
+	readFaultSurvived bool
+	persistedAtOpen   uint64
+	locks             []lockProbe
+	crashSeed         uint64
+	lastCrash         string
+	yieldOn           bool
+	lastTasks         []*ytask // tasks of the last runTasks call, with their invoke / return stamps
 }
 
 type ytask struct {
@@ -292,6 +296,8 @@ func runStore(seed uint64, engine, class string) {
 			s.doGet(op) // a pget outside a batch (minimised plan) is an ordinary get
 		case "reopen":
 			s.doReopen()
+		case "faultyreopen":
+			s.doFaultyReopen(op)
 		case "par":
 			n := int(op.n(0))
 			var batch []opSpec
@@ -328,17 +334,27 @@ func runStore(seed uint64, engine, class string) {
 	w.finish()
 }
 
-func (s *storeSim) open(first bool) bool {
-	opts := &pebble.Options{
-		FS:                    s.disk,
-		MemTableSize:          uint64(s.p.cfg("memtable")),
-		Cache:                 pebble.NewCache(s.p.cfg("cache")),
-		MaxOpenFiles:          16,
-		Levels:                []pebble.LevelOptions{{TargetFileSize: 64 << 10, BlockSize: 1 << 10}},
-		L0CompactionThreshold: 2,
+func (s *storeSim) open(first bool) bool { return s.openFault(0) }
+
+// openFault opens the store; with readFault > 0 the readFault-th read of a table file that follows the
+// opening of the database fails once (the database is opened, closed and opened again first, so that the
+// write-ahead log is in table files and nothing is in the block cache). A start the store refuses because
+// of that read is repeated without the fault, as a supervisor would.
+func (s *storeSim) openFault(readFault int) bool {
+	mkopts := func() *pebble.Options {
+		opts := &pebble.Options{
+			FS:                    s.disk,
+			MemTableSize:          uint64(s.p.cfg("memtable")),
+			Cache:                 pebble.NewCache(s.p.cfg("cache")),
+			MaxOpenFiles:          16,
+			Levels:                []pebble.LevelOptions{{TargetFileSize: 64 << 10, BlockSize: 1 << 10}},
+			L0CompactionThreshold: 2,
+		}
+		opts.Experimental.ReadSamplingMultiplier = -1
+		return opts
 	}
-	opts.Experimental.ReadSamplingMultiplier = -1
-	db, err := pebble.Open("/db", opts)
+	s.readFaultSurvived = false
+	db, err := pebble.Open("/db", mkopts())
 	if err != nil {
 		s.w.violate("C17", "open-failed", "pebble.Open after %s: %v", s.lastCrash, err)
 		return false
@@ -350,7 +366,43 @@ func (s *storeSim) open(first bool) bool {
 		}
 		closer.Close()
 	}
+	if readFault > 0 {
+		synctest.Wait()
+		if err := db.Close(); err != nil {
+			s.w.j.logf("close before the faulty open: %v", err)
+		}
+		synctest.Wait()
+		if db, err = pebble.Open("/db", mkopts()); err != nil {
+			s.w.violate("C17", "open-failed", "pebble.Open after a clean close: %v", err)
+			return false
+		}
+		s.disk.mu.Lock()
+		s.disk.readFailIn, s.disk.readFailed = readFault, 0
+		s.disk.mu.Unlock()
+	}
 	st, err := spebble.NewStorage(storage.PortalStorageConfig{StorageCapacityMB: storeCapMB, NodeId: s.nodeID, NetworkName: "sim"}, db)
+	if readFault > 0 {
+		s.disk.mu.Lock()
+		fired := s.disk.readFailed > 0
+		s.disk.readFailIn = 0
+		s.disk.mu.Unlock()
+		switch {
+		case !fired:
+			s.w.probe("open_read_fault_not_reached")
+		case err != nil:
+			s.w.probe("open_read_fault_refused")
+			s.w.res.Faults["read_error_at_open"]++
+			s.w.op("start refused because of the failed read (%v); started again", err)
+			synctest.Wait()
+			db.Close()
+			synctest.Wait()
+			return s.openFault(0)
+		default:
+			s.w.probe("open_read_fault_survived")
+			s.w.res.Faults["read_error_at_open"]++
+			s.readFaultSurvived = true
+		}
+	}
 	if err != nil {
 		s.w.violate("C17", "open-failed", "NewStorage after %s: %v", s.lastCrash, err)
 		db.Close()
@@ -690,6 +742,29 @@ func (s *storeSim) doReopen() {
 	}
 	s.w.probe("reopen")
 	s.afterOp("reopen", nil, nil, nil, 0)
+}
+
+// doFaultyReopen: clean restart in which one read of a table file fails while the store opens. The store may
+// refuse to start (it is then started again) or start; if it started although the read failed, one more put
+// must still leave a persisted usage figure that is not below the bytes present (C17).
+func (s *storeSim) doFaultyReopen(op opSpec) {
+	s.w.op("reopen with the %d-th table read failing", op.n(0))
+	s.closeDB()
+	s.checkHeld()
+	if !s.openFault(int(op.n(0))) {
+		s.w.finish()
+	}
+	survived := s.readFaultSurvived
+	s.w.probe("faulty_reopen")
+	s.afterOp("reopen", nil, nil, nil, 0) // a store found over capacity is pruned on open, as in any restart
+	s.doPut(opSpec{K: "put", N: []int64{op.n(1), op.n(2), op.n(3)}})
+	if v := s.scan(); v.hasSize && v.persisted < v.real {
+		how := "refused or unaffected"
+		if survived {
+			how = "started in spite of it"
+		}
+		s.w.violate("C17", "read-fault-under-report", "op#%d: after a start with a failed table read (%s) and one put the persisted usage %d < bytes present %d", s.opIdx, how, v.persisted, v.real)
+	}
 }
 
 // ---------- crash ----------
